@@ -869,9 +869,10 @@ impl<'ast, 'res> Resolver<'ast, 'res> {
                         ),
                     },
                     BinaryOp::And | BinaryOp::Or => match (l, r) {
-                        (Some(ValueType::Bool), Some(ValueType::Bool))
-                        | (Some(ValueType::Null | ValueType::Dynamic), ..)
-                        | (.., Some(ValueType::Null | ValueType::Dynamic)) => {}
+                        (
+                            Some(ValueType::Bool | ValueType::Null | ValueType::Dynamic),
+                            Some(ValueType::Bool | ValueType::Null | ValueType::Dynamic),
+                        ) => {}
                         _ => {
                             self.emit_error(
                                 *span,
